@@ -78,6 +78,8 @@ func main() {
 	case "selftest":
 		self, _ := os.Executable()
 		os.Exit(harness.SelfTest(*prop, *seed, *n, self))
+	case "exec-case":
+		os.Exit(harness.ExecCaseStdin(*prop))
 	case "one":
 		// run a single index in-process and print the outcome (debugging)
 		p := harness.Lookup(*prop)
